@@ -508,6 +508,10 @@ func main() {
 		known(o)
 		return
 	}
+	if o.Extra == "special" || strings.HasPrefix(o.Extra, "special:") {
+		special(o) // special.go: non-finite values and derivatives, all storage combinations vs all-dense
+		return
+	}
 	if o.Replay != "" {
 		b, err := os.ReadFile(o.Replay)
 		if err != nil {
